@@ -141,6 +141,14 @@ def run(ctx):
                   f"{len(r['dispatch']) if r else '?'} dispatch(es), hold since {r and r['te']}; specified {want_disp} dispatch(es), hold since {want_hold}", key=f"startup {check_now}/{expr_true}/{S}",
                   node=program.func(CYC), rel="decorators/state.py")
 
+    ctx.rule("R05.8", "what counts as an evaluation: the change predicates that decide whether a notification starts, continues or resets a hold equal their reference "
+             "definition (value / named attribute / any attribute changed - attributes that appear or disappear included)", floor=150)
+    from .c04 import change_predicate_table, watched_set_table
+    change_predicate_table(ctx, program, "R05.8")
+    ctx.rule("R05.9", "which entities can start a hold at all: the trigger subscribes to watch= if given, else to the names of the expression plus every any-change name - "
+             "a change of any other entity is never an evaluation", floor=10)
+    watched_set_table(ctx, program, "R05.9")
+
     ctx.rule("R05.6", "legacy loops on scripted histories: hold neither released nor cancelled by non-evaluating / still-true notifications, cancelled by false, released with the first event's arguments; hold_false thresholds", floor=16)
     legacy_hold_rules(ctx, program, "R05.6")
     return (
